@@ -12,6 +12,7 @@ import (
 	"os"
 	"sort"
 	"strings"
+	"sync"
 
 	"github.com/goatcms/goatcore/filesystem"
 )
@@ -46,6 +47,7 @@ func SortTree(t Tree) {
 
 // Dict maps content tokens to bytes and back.
 type Dict struct {
+	mu    sync.RWMutex
 	tok2b map[string][]byte
 	b2tok map[string]string
 }
@@ -60,13 +62,17 @@ func NewDict() *Dict {
 }
 
 func (d *Dict) Add(tok string, b []byte) {
+	d.mu.Lock()
+	defer d.mu.Unlock()
 	d.tok2b[tok] = b
 	d.b2tok[string(b)] = tok
 }
 
 // Bytes returns a fresh copy of the bytes of a token.
 func (d *Dict) Bytes(tok string) []byte {
+	d.mu.RLock()
 	b, ok := d.tok2b[tok]
+	d.mu.RUnlock()
 	if !ok {
 		b = []byte("tok:" + tok)
 		d.Add(tok, b)
@@ -75,7 +81,10 @@ func (d *Dict) Bytes(tok string) []byte {
 }
 
 func (d *Dict) Token(b []byte) string {
-	if t, ok := d.b2tok[string(b)]; ok {
+	d.mu.RLock()
+	t, ok := d.b2tok[string(b)]
+	d.mu.RUnlock()
+	if ok {
 		return t
 	}
 	if len(b) > 24 {
